@@ -66,23 +66,28 @@ LDSO = "/lib64/ld-linux-x86-64.so.2"
 def model_check(ctx, cov, workers):
     runs = []
     cfgs = [("mc/HashTables_quick.cfg", 1500)] if ctx.quick else \
-        [("mc/HashTables_quick.cfg", 1800), ("mc/HashTables_thorough.cfg", 3000),
-         ("mc/HashTables_thorough2.cfg", 3000), ("mc/HashTables_full.cfg", 3000)]
+        [("mc/HashTables_thorough.cfg", 1500), ("mc/HashTables_thorough2.cfg", 1500),
+         ("mc/HashTables_quick.cfg", 900), ("mc/HashTables_full.cfg", 1200)]
     states = trans = 0
 
     def broken(v):
         return v, tlc.run_tlc("MCHashTables", f"mc/HashTables_broken_{v}.cfg", workers=1, timeout=900, coverage=False,
                               name=f"c08.broken.{v}.{ctx.seed}")
 
-    with ThreadPoolExecutor(max_workers=2) as ex:
+    def main_run(ct):
+        cfg, to = ct
+        return cfg, to, tlc.run_tlc("MCHashTables", cfg, workers=workers, timeout=to,
+                                    name=f"c08.{Path(cfg).stem}.{ctx.seed}")
+
+    with ThreadPoolExecutor(max_workers=2) as ex, ThreadPoolExecutor(max_workers=1 if ctx.quick else 2) as ex2:
         broken_results = ex.map(broken, BROKEN)        # alongside the main runs
-        for cfg, to in cfgs:
-            r = tlc.run_tlc("MCHashTables", cfg, workers=workers, timeout=to, name=f"c08.{Path(cfg).stem}.{ctx.seed}")
+        for cfg, to, r in ex2.map(main_run, cfgs):
             runs.append({"cfg": cfg, **r.summary()})
             if r.timed_out:
                 if ctx.quick:
                     raise ToolError(f"model check {cfg} timed out after {to}s ({r.distinct} states)")
                 log(f"{cfg}: timed out after {to}s with {r.distinct} distinct states (counted as partial)")
+                runs[-1]["partial"] = True
                 states += r.distinct
                 trans += r.generated
                 continue
@@ -383,7 +388,7 @@ def run(ctx):
     wild = build_wild()
     with scratch("c08") as d, ThreadPoolExecutor(max_workers=1) as bg:
         # the bounded model runs in the background while the links are generated
-        mc_future = bg.submit(model_check, ctx, cov, 4 if ctx.quick else 5)
+        mc_future = bg.submit(model_check, ctx, cov, 4 if ctx.quick else 3)
         try:
             result = observed(ctx, cov, rng, d, wild)
         finally:
@@ -448,6 +453,7 @@ def observed(ctx, cov, rng, d, wild):
         if c.strategy == "birthday":
             absent += [b for a, b in birthday_pairs if b not in c.names] + [a for a, b in birthday_pairs if a not in c.names]
         absent += c.imports        # undefined dynamic symbols: must not be "found"
+        absent += c.names          # names a version script made local are probed as well (TLC decides from .dynsym)
         o, raw = hashobs.observe(c.out, c.id, absent, wg, ws)
         obs_list.append(o)
         raws[c.id] = raw
